@@ -217,7 +217,9 @@ func (m *collection) mergerWaitForWork(pings []ping) (
 
 	m.m.Lock()
 
-	if m.stackDirtyTop == nil || len(m.stackDirtyTop.a) <= 0 {
+	// A non-nil stackDirtyTop always holds work, even without top-level
+	// segments: the batch might have only touched child collections.
+	if m.stackDirtyTop == nil {
 		m.waitDirtyIncomingCh = make(chan struct{})
 		waitDirtyIncomingCh = m.waitDirtyIncomingCh
 	}
